@@ -959,6 +959,76 @@ class EntryEqHash(EqHashRelational):
     function = 'PyTreeEntry.__hash__'
 
 
+# ---- C04: the field names of namedtuple / struct-sequence path entries -------------------------------------------------------
+
+entry_type = z3.Function('attr_type', Ref, Ref)                # entry.type
+entry_index = z3.Function('attr_entry', Ref, Ref)              # entry.entry
+fields_prop = z3.Function('property_fields', Ref, Ref)         # entry.fields (through the contract of the property)
+py_getitem = z3.Function('py_getitem', Ref, Ref, Ref)          # a[b]
+
+
+class EntryFields(PyContract):
+    """X.fields is exactly <twin>(self.type) - a function of the entry's own class object and of nothing else (no state shared
+    between entries: two classes that merely share their name have their own field names); X.field is self.fields[self.entry].
+    The twins namedtuple_fields / structseq_fields are used through their contracts (C18)."""
+    module = 'optree/accessor.py'
+    twin = ''
+
+    def setup(self, eng, st, fn):
+        st.env.vars['self'] = z3.Const('self', Ref)
+
+    def global_name(self, eng, st, name):
+        if name == self.twin:
+            return OpaqueV('twin:' + name)
+        return None
+
+    def attribute(self, eng, st, base, attr):
+        if is_z3(base) and base.sort() == Ref:
+            return {'type': entry_type, 'entry': entry_index, 'fields': fields_prop}.get(attr, z3.Function('attr_' + attr, Ref, Ref))(base)
+        return None
+
+    def call(self, eng, st, f, args, kwargs, n, stars):
+        if isinstance(f, OpaqueV) and f.tag == 'twin:' + self.twin and len(args) == 1 and not kwargs:
+            s_exc = st.clone()
+            eng.throw(s_exc, 'TypeError', n.lineno)
+            return [(st, z3.Function(self.twin, Ref, Ref)(args[0]))]
+        return None
+
+    def subscript(self, eng, st, base, idx):
+        if is_z3(base) and base.sort() == Ref and is_z3(idx) and idx.sort() == Ref:
+            s_exc = st.clone()
+            eng.throw(s_exc, 'IndexError', 0)
+            return py_getitem(base, idx)
+        return None
+
+    def raises(self, eng, st, entry):
+        return {'TypeError': None, 'IndexError': None}
+
+
+def _mk_fields(cls, twin):
+    me = z3.Const('self', Ref)
+
+    class F(EntryFields):
+        function = f'{cls}.fields'
+
+        def post(self, eng, st, entry, ret):
+            return [('fields-are-the-field-names-of-the-entrys-own-class', ret == z3.Function(twin, Ref, Ref)(entry_type(me)))]
+
+    class G(EntryFields):
+        function = f'{cls}.field'
+
+        def post(self, eng, st, entry, ret):
+            return [('field-is-the-name-at-the-entrys-index', ret == py_getitem(fields_prop(me), entry_index(me)))]
+    for k in (F, G):
+        k.twin = twin
+        k.__name__ = k.__qualname__ = f'{cls}_{k.function.split(".")[1]}'
+        pycontract(k)
+
+
+_mk_fields('NamedTupleEntry', 'namedtuple_fields')
+_mk_fields('StructSequenceEntry', 'structseq_fields')
+
+
 # ======================================================================================================================
 # C12: registry.pytree_node_registry_get(None, namespace=N) - the whole-table view: N shadows the global namespace
 
